@@ -33,7 +33,8 @@ vh::Outcome run_c03_t(const vh::Case& c, bool with_faults) {
     vh::Outcome out;
     int nbits = 0;
     out.res = vrt::run(c.sched, [&] {
-        LR lr(uint64_t(0));
+        std::unique_ptr<LR> lrp(ctor_from_rvalue(c) ? new LR(Tracked(uint64_t(0))) : new LR(uint64_t(0)));
+        LR& lr = *lrp;
         // assign one bit per modify op
         for (size_t i = 0; i < c.fibers.size(); ++i) {
             const auto& ops = c.fibers[i];
@@ -168,7 +169,8 @@ vh::Outcome run_c04_t(const vh::Case& c) {
     long ctor0 = 0;
     out.res = vrt::run(c.sched, [&] {
         {
-            COW cow(uint64_t(0));
+            std::unique_ptr<COW> cowp(ctor_from_rvalue(c) ? new COW(P(uint64_t(0))) : new COW(uint64_t(0)));
+            COW& cow = *cowp;
             ctor0 = vrt::tstats().ctor - vrt::tstats().dtor;   // live payload objects belonging to the wrapper itself
             auto check_snapshot_value = [&](uint64_t v, long call_step, const char* who) {
                 if (v & cancelled_bits) vrt::fail("cancelled-visible", std::string(who) + " observed a modification that was cancelled");
